@@ -2,42 +2,8 @@ package rapid
 
 // L-KERNEL / C03: integer kernels respect their range on every bitstream.
 
-// spanClass restricts the bit length of a span in the quick tier to a set of
-// representative classes (all 65 in the thorough tier). The classes include every
-// length at which genUintNBiased changes behaviour (0,1, 8/9: m leaves its floor,
-// 55..64: overflow thresholds).
-func spanClass(span uint64) {
-	if thorough() {
-		return
-	}
-	assume(lenIn(span, 0, 1, 2, 8, 9, 17, 32, 33, 55, 56, 57, 59, 60, 61, 63, 64))
-}
 
-// lenIn reports (as one symbolic condition, without forking) whether the bit length of x is
-// one of the listed values.
-func lenIn(x uint64, lens ...int) bool {
-	ok := false
-	for _, n := range lens {
-		var c bool
-		switch {
-		case n == 0:
-			c = x == 0
-		case n == 64:
-			c = x >= 1<<63
-		default:
-			c = bAnd(x >= uint64(1)<<uint(n-1), x < uint64(1)<<uint(n))
-		}
-		ok = bOr(ok, c)
-	}
-	return ok
-}
 
-func streamLen(name string, quick, deep int) int {
-	if thorough() {
-		return choose(name, deep+1)
-	}
-	return choose(name, quick+1)
-}
 
 func H_C03_uintRange() {
 	min, max := nondetU64("min"), nondetU64("max")
